@@ -97,6 +97,7 @@ def explore(fn, budget_s=60.0, per_path_timeout=20.0, max_paths=10**9,
           'exc': None}
 
     def run(args):
+        _TRACKED.clear()
         if on_reset is not None:
             with NoTracing():
                 on_reset()
@@ -115,15 +116,17 @@ def explore(fn, budget_s=60.0, per_path_timeout=20.0, max_paths=10**9,
             if len(st['samples']) < samples:
                 space.detach_path()
                 try:
-                    real = deep_realize(pre_args)
-                    st['samples'].append(_plain(dict(real.arguments)))
+                    real = dict(deep_realize(pre_args).arguments)
+                    real.update(deep_realize(dict(_TRACKED)))
+                    st['samples'].append(_plain(real))
                 except Exception:  # pragma: no cover
                     pass
             return st['paths'] >= max_paths
         space.detach_path()
-        real = deep_realize(pre_args)
+        real = dict(deep_realize(pre_args).arguments)
+        real.update(deep_realize(dict(_TRACKED)))
         with NoTracing():
-            st['cex'] = _plain(dict(real.arguments))
+            st['cex'] = _plain(real)
             try:
                 msg = str(deep_realize(exc.args[0])) if exc.args else ''
             except Exception:
@@ -166,7 +169,12 @@ def explore(fn, budget_s=60.0, per_path_timeout=20.0, max_paths=10**9,
         status = 'VIOLATED'
     elif err is not None:
         status = 'UNKNOWN'
-    elif exhausted and tree_status == VerificationStatus.CONFIRMED:
+    elif exhausted and (tree_status == VerificationStatus.CONFIRMED or (
+            # RealBasedSymbolicFloat caps the tree result at UNKNOWN although
+            # every path was decided: accept when floats are deliberately
+            # modelled as reals (fresh_real) and nothing was left undecided
+            _REAL_MODEL[0] and stats.get('UNKNOWN', 0) == 0
+            and _SolverStats.unknown - u0 == 0)):
         status = 'CONFIRMED' if st['ok'] > 0 else 'VACUOUS'
     elif exhausted and st['ok'] == 0 and tree_status is None:
         status = 'VACUOUS'
@@ -188,4 +196,42 @@ def explore(fn, budget_s=60.0, per_path_timeout=20.0, max_paths=10**9,
         'wall_s': round(wall, 2),
         'tree_stats': stats,
         'engine_error': err,
+        'floats_as_reals': _REAL_MODEL[0],
     }
+
+
+_TRACKED = {}
+_REAL_MODEL = [False]
+
+
+def track(name, value):
+    """Make a symbolic value created inside the harness part of the
+    counterexample / samples (besides the harness parameters)."""
+    _TRACKED[name] = value
+    return value
+
+
+def fresh_real(name='real'):
+    """A symbolic float modelled as a mathematical real (no IEEE rounding);
+    tracked under ``name``."""
+    from crosshair.libimpl.builtinslib import (RealBasedSymbolicFloat,
+                                               ModelingDirector)
+    from crosshair.statespace import context_statespace
+    _REAL_MODEL[0] = True
+    with NoTracing():
+        space = context_statespace()
+        # concrete float operands are lifted into the representation chosen
+        # for ``float`` on this path: pin it to the real-based one
+        space.extra(ModelingDirector).global_representations[float] = \
+            RealBasedSymbolicFloat
+        v = RealBasedSymbolicFloat(name + space.uniq(), float)
+    return track(name, v)
+
+
+def fresh(typ, name='fresh'):
+    """A new symbolic value of ``typ`` on the current path."""
+    from crosshair.core import proxy_for_type
+    from crosshair.statespace import context_statespace
+    with NoTracing():
+        space = context_statespace()
+        return proxy_for_type(typ, name + space.uniq())
